@@ -5,7 +5,7 @@ import hashlib, json, os, re
 from dataclasses import dataclass, field
 from typing import Dict, List, Optional, Tuple
 from .extract import Source, FnItem, AnchorError, loops_in
-from .lexer import lex, code_toks, match_close
+from .lexer import split_top_level, lex, code_toks, match_close
 from .spec import FnSpec, parse_spec
 from . import rewrite as RW
 
@@ -262,8 +262,25 @@ class UnitBuild:
             return None
         cb = match_close(T, i)
         params = sig[T[i].end:T[cb].start]
-        if "impl " in params or "dyn " in params:
+        if "dyn " in params:
             return None
+        if "impl " in params:
+            # `x: impl Trait` -> a named type parameter (same meaning for a caller-chosen argument type)
+            PT = code_toks(lex(params))
+            parts = split_top_level(PT, ",")
+            new_params, extra = [], []
+            for part in parts:
+                if not part:
+                    continue
+                txt = params[part[0].start:part[-1].end]
+                m = re.match(r"^(\s*(?:mut\s+)?[A-Za-z_][A-Za-z0-9_]*\s*:\s*)impl\s+(.*)$", txt, re.S)
+                if m:
+                    g = f"F__{len(extra)}"
+                    extra.append(f"{g}: {m.group(2).strip()}")
+                    txt = m.group(1) + g
+                new_params.append(txt)
+            params = ", ".join(new_params)
+            generics = (generics.rstrip()[:-1] + ", " + ", ".join(extra) + ">") if generics.strip() else "<" + ", ".join(extra) + ">"
         params = re.sub(r"&\s*(\'[a-z_]+\s+)?mut\s+", lambda m: "&" + (m.group(1) or ""), params)
         params = re.sub(r"(^|,)\s*mut\s+", r"\1 ", params)
         where = ""
